@@ -226,6 +226,11 @@ func (e *compatibilityEngine) NewRangeQuery(q storage.Queryable, opts *promql.Qu
 // series, so they are turned into the error of the query here.
 type fallbackQuery struct {
 	promql.Query
+
+	// cancelMu guards cancel: Cancel and Close may be called from other
+	// goroutines while Exec is running.
+	cancelMu sync.Mutex
+	cancel   context.CancelFunc
 }
 
 func (e *compatibilityEngine) newFallbackQuery(q promql.Query, err error) (promql.Query, error) {
@@ -241,8 +246,31 @@ func (q *fallbackQuery) Exec(ctx context.Context) (ret *promql.Result) {
 			ret = &promql.Result{Err: errors.Newf("unexpected error: %v", r)}
 		}
 	}()
+
+	ctx, cancel := context.WithCancel(ctx)
+	defer cancel()
+	q.cancelMu.Lock()
+	q.cancel = cancel
+	q.cancelMu.Unlock()
+
 	return q.Query.Exec(ctx)
 }
+
+// Cancel ends a running Exec. The Prometheus query is cancelled through its
+// context, its own Cancel is not safe for use while Exec is running.
+func (q *fallbackQuery) Cancel() {
+	q.cancelMu.Lock()
+	defer q.cancelMu.Unlock()
+	if q.cancel != nil {
+		q.cancel()
+		q.cancel = nil
+	}
+}
+
+// Close behaves like Close of a natively evaluated query. The Prometheus query
+// is not closed: that would hand the points of the result, which the caller
+// may still hold, to a pool from which later queries overwrite them.
+func (q *fallbackQuery) Close() { q.Cancel() }
 
 type Query struct {
 	exec model.VectorOperator
